@@ -397,7 +397,7 @@ func runCase(in Input) Observed {
 	}()
 	select {
 	case <-done:
-	case <-time.After(20 * time.Second):
+	case <-time.After(10 * time.Second):
 		return Observed{Toks: []Tok{{K: "hang"}}, Reqs: append([]ReqObs{}, tr.reqs...), Reads: make([]int64, len(tr.reqs))}
 	}
 	reads := make([]int64, len(tr.bodies))
@@ -847,10 +847,11 @@ func clens(n int) []int64 {
 }
 
 type gen struct {
-	out  *hx.Out
-	rnd  *rand.Rand
-	seen map[string]bool
-	pend []pending
+	out   *hx.Out
+	rnd   *rand.Rand
+	seen  map[string]bool
+	pend  []pending
+	hangs int
 }
 
 type pending struct {
@@ -861,6 +862,11 @@ type pending struct {
 }
 
 func (g *gen) add(in Input, origin string) {
+	// a hung call leaves a spinning goroutine behind and costs a watchdog period: after three of
+	// them the run stops exploring and reports what it has (each hang is a violating case)
+	if g.hangs >= 3 {
+		return
+	}
 	if in.Call.BufSz == 0 {
 		in.Call.BufSz = 7
 	}
@@ -886,6 +892,9 @@ func (g *gen) add(in Input, origin string) {
 		if t.K == "panic" || t.K == "hang" {
 			kind = t.K
 		}
+	}
+	if kind == "hang" {
+		g.hangs++
 	}
 	g.pend = append(g.pend, pending{in, ob, origin, kind})
 }
